@@ -162,6 +162,7 @@ impl Prop for C02 {
         if stage == 0 {
             let progs = programs(tier);
             for i in a..b {
+            out.idx = Some(i);
                 let t = &progs[i as usize];
                 let text = parse::print(t, &ops, Parens::Minimal);
                 // the model must agree with itself before it is used as an oracle
@@ -188,6 +189,7 @@ impl Prop for C02 {
         }
         let s = seqs(tier);
         for i in a..b {
+            out.idx = Some(i);
             for text in [s.spaced(i), s.glued(i)] {
                 if let Ok(want) = parse::parse(&text, &ops) {
                     compare(&text, &want, &ops, "tokens", out);
